@@ -5,6 +5,8 @@ extracted Gallina model.  Oracle (search only): textbook edit distance / Hamming
 distance of the reported intervals, documented placement rule, overlap, threshold."""
 import itertools
 
+import json
+
 from .. import core, buildimpl
 from .. import alignutil as U
 
@@ -137,6 +139,31 @@ def check(ctx):
                     ctx.violation("%s %s: %s" % (spec.typ, which, why.split(" but ")[0]),
                                   {"adapter": spec.to_json(), "read": r, "observed": U.match_tuple(res), "why": why,
                                    "reproduce": "cd /verif && ./check replay <this file>"})
+    # ---- 3. matches that come out of the adapter index (several anchored adapters given together: the default at the command
+    # line): the same claims -- inside the read, anchored, within the adapter's own tolerance, errors = exact distance
+    from . import c08
+
+    import logging
+    logging.disable(logging.WARNING)
+    try:
+        for _ in range(ctx.size(60, 1200)):
+            aset = c08.rand_adapter_set(ctx.rng)
+            try:
+                objs, idx = c08.impl_index(aset)
+            except Exception:
+                continue
+            for r in c08.rand_reads(ctx.rng, aset, 10):
+                try:
+                    res = c08.mt(objs, idx.match_to(r))
+                except Exception as e:
+                    ctx.violation("indexed match_to raises %s" % type(e).__name__, {"aset": aset, "read": r, "why": "%s: %s" % (type(e).__name__, e), "indexed": True})
+                    continue
+                ctx.count(("indexed", json.dumps(aset, sort_keys=True), r), res is not None)
+                dist["indexed/" + ("match" if res is not None else "none")] = dist.get("indexed/" + ("match" if res is not None else "none"), 0) + 1
+                for why in c08.genuine(aset, r, res):
+                    ctx.violation("indexed adapters: " + why, {"aset": aset, "read": r, "observed": list(res), "why": why, "indexed": True})
+    finally:
+        logging.disable(logging.NOTSET)
     mod2 = core.model_run(lines) if model_ok else [None] * len(lines)
     bad2 = core.diff_cases(ctx, "match_to", meta, impl_out, mod2, None)
     for i in bad2[:10]:
@@ -155,6 +182,16 @@ def check(ctx):
 
 def replay(doc):
     r = doc["replay"]
+    if r.get("indexed"):
+        from . import c08
+        from .. import buildimpl as B
+
+        B.activate()
+        objs, idx = c08.impl_index(r["aset"])
+        res = c08.mt(objs, idx.match_to(r["read"]))
+        probs = c08.genuine(r["aset"], r["read"], res)
+        print("indexed adapters", r["aset"], "read", r["read"], "->", res, "|", probs or "property holds on this input")
+        return 1 if probs else 0
     if "adapter" not in r:
         c = r["case"]
         print("locate case", c, "impl:", locate_impl(tuple(c)))
